@@ -225,10 +225,17 @@ def run_shard(ctx):
     ctx.run_given(gen.messages(L), lambda c: judge(ctx, L, c.type, c.cc, c.enc, c.data, "wellformed"), ctx.share(1200 if q else 20000), name="wellformed")
     ctx.run_given(gen.streams(L, max_pairs=2), lambda c: judge(ctx, L, c.type, c.cc, c.enc, c.data, "stream"), ctx.share(200 if q else 3000), name="streams")
     # scale: one long stream (hundreds of messages) or one list with ~1000 elements per shard
+    # (generated under hypothesis, judged outside it: hypothesis raises the interpreter's recursion limit while a test
+    # runs, which would hide a printer whose recursion depth grows with the number of lists)
+    collected = []
     if ctx.shard % 2:
-        ctx.run_given(gen.long_streams(L), lambda c: judge(ctx, L, c.type, c.cc, c.enc, c.data, "long-stream"), 1 if q else 4, name="long-stream")
+        ctx.run_given(gen.long_streams(L), collected.append, 1 if q else 4, name="long-stream")
+        how = "long-stream"
     else:
-        ctx.run_given(gen.long_lists(L), lambda c: judge(ctx, L, c.type, c.cc, c.enc, c.data, "long-list"), 1 if q else 4, name="long-list")
+        ctx.run_given(gen.long_lists(L), collected.append, 1 if q else 4, name="long-list")
+        how = "long-list"
+    for c in collected:
+        ctx.run_plain(lambda c=c: judge(ctx, L, c.type, c.cc, c.enc, c.data, how), how)
     ctx.run_given(arb.faulted_input(L), lambda x: judge(ctx, L, x[0], x[1], x[2], x[3], "faulted"), ctx.share(2500 if q else 40000), name="faulted")
     ctx.run_given(arb.arbitrary_input(L), lambda x: judge(ctx, L, x[0], x[1], x[2], x[3], x[4]), ctx.share(1500 if q else 25000), name="arbitrary")
 
